@@ -40,6 +40,19 @@
 //!     still applies ("after a fill ... the estimate at the fill price"); because market data newer than
 //!     such a fill may already have arrived, the estimate at the instrument's current price is accepted
 //!     as well - but never a value left over from before the fill (computed for another quantity).
+//!   * `idle-events` (hardening round 2): between the fills and market events the engine also processes
+//!     events that carry NEITHER a fill NOR market data - an order snapshot for the instrument, a balance
+//!     snapshot / an account-stream `Reconnecting` / a market-stream `Reconnecting` of its exchange, a
+//!     trading-state update (so the later events run with trading enabled, i.e. through the algo branch of
+//!     `Engine::process`, as well as disabled). Rule (f): such an event leaves the estimate of EVERY open
+//!     position where it was ("after a fill it equals the estimate at the fill price UNTIL NEWER MARKET
+//!     DATA arrives"; after a priced market event it is the estimate at the current price, which such an
+//!     event does not move) - a value that is one of the monitor's allowed sources is accepted too. And
+//!     the fills / market events that follow are judged by (a)-(e) as before, whatever the connectivity
+//!     and trading state these events left behind.
+//!   * `micro-moves` (hardening round 2): public trades whose price differs from the previous one by 1e-8
+//!     (a "dust" move of the estimate, far below the fee share): sentence 1 has no threshold - the
+//!     estimate equals the documented one at the CURRENT price however small the move.
 //! The monitor keeps, per instrument, the set of allowed sources of the estimate (a price, "0 at open",
 //! or - after a reported violation - the observed value, so one defect is reported where it happens and
 //! does not cascade). Signatures: rule + abstract cause (left-at-previous-value,
@@ -59,6 +72,16 @@ use barter::{
     },
     execution::AccountStreamEvent,
 };
+use barter_execution::{
+    balance::{AssetBalance, Balance},
+    order::{
+        Order, OrderKey, OrderKind, TimeInForce,
+        id::ClientOrderId,
+        state::{Open, OrderState},
+    },
+};
+use barter_instrument::asset::{AssetIndex, name::AssetNameInternal};
+use barter_integration::snapshot::Snapshot;
 use barter_data::{
     books::Level,
     event::{DataKind, MarketEvent},
@@ -89,7 +112,8 @@ use std::{
 const QTY: [Decimal; 2] = [dec!(1), dec!(2)];
 const FILL_PRICE: [Decimal; 2] = [dec!(100), dec!(110)];
 const FEE: [Decimal; 2] = [dec!(0), dec!(0.3)];
-const TRADE_PRICE: [f64; 2] = [100.0, 120.0];
+/// index 2 (a dust move away from index 0) is used by the `micro-moves` configuration only
+const TRADE_PRICE: [f64; 3] = [100.0, 120.0, 100.00000001];
 /// (bid price, bid amount, ask price, ask amount)
 const BOOK: [(Decimal, Decimal, Decimal, Decimal); 2] =
     [(dec!(99), dec!(1), dec!(101), dec!(1)), (dec!(104), dec!(1), dec!(108), dec!(3))];
@@ -134,12 +158,29 @@ pub enum Sym {
     Liquidation { i: u8 },
     /// L1 with no bid and no ask
     EmptyL1 { i: u8, t: T },
+    // ---- events without a fill and without market data (`idle-events` configuration, rule (f))
+    /// account `OrderSnapshot` of an open order on driven instrument `i`
+    OrderSnap { i: u8 },
+    /// account `BalanceSnapshot` of the quote asset on the exchange of driven instrument `i`
+    Balance { i: u8 },
+    /// `AccountStreamEvent::Reconnecting` of the exchange of driven instrument `i`
+    AccountReconnecting { i: u8 },
+    /// `MarketStreamEvent::Reconnecting` of the exchange of driven instrument `i`
+    MarketReconnecting { i: u8 },
+    /// `EngineEvent::TradingStateUpdate`
+    Trading { on: bool },
 }
 impl Sym {
     fn instrument(&self) -> usize {
         match *self {
             Sym::Fill { i, .. } | Sym::Trade { i, .. } | Sym::L1 { i, .. } | Sym::Liquidation { i } | Sym::EmptyL1 { i, .. } => i as usize,
+            Sym::OrderSnap { i } | Sym::Balance { i } | Sym::AccountReconnecting { i } | Sym::MarketReconnecting { i } => i as usize,
+            Sym::Trading { .. } => 0,
         }
+    }
+    /// neither a fill nor a market data item
+    fn is_idle(&self) -> bool {
+        matches!(self, Sym::OrderSnap { .. } | Sym::Balance { .. } | Sym::AccountReconnecting { .. } | Sym::MarketReconnecting { .. } | Sym::Trading { .. })
     }
 }
 
@@ -200,6 +241,7 @@ pub struct Counters {
     refreshed_to_new_value: AtomicU64,
     open_fill_zero_where_estimate_nonzero: AtomicU64,
     exit_fee_basis_checked: AtomicU64,
+    idle_event_checked: AtomicU64,
 }
 
 /// Alphabet width: the narrower, the deeper the bound.
@@ -212,6 +254,10 @@ pub enum Width {
     Trio,
     /// fills stamped newer / equal / older
     FillTimes,
+    /// narrow alphabet plus events that carry neither a fill nor market data
+    Idle,
+    /// trades whose price moves by 1e-8
+    Micro,
 }
 
 pub struct M {
@@ -219,6 +265,8 @@ pub struct M {
     instruments: IndexedInstruments,
     /// driven instruments: (instrument index, exchange id, exchange index)
     driven: Vec<(InstrumentIndex, ExchangeId, ExchangeIndex)>,
+    /// quote asset (usdt) on the exchange of each driven instrument
+    quote: Vec<AssetIndex>,
     pub n: Counters,
 }
 
@@ -243,7 +291,11 @@ impl M {
         } else {
             vec![find("a1"), find("b0")]
         };
-        Self { width, instruments, driven, n: Counters::default() }
+        let quote = driven
+            .iter()
+            .map(|d| instruments.find_asset_index(d.1, &AssetNameInternal::new("usdt")).expect("quote asset"))
+            .collect();
+        Self { width, instruments, driven, quote, n: Counters::default() }
     }
     pub fn label(&self) -> &'static str {
         match self.width {
@@ -252,6 +304,8 @@ impl M {
             Width::Narrow => "narrow",
             Width::Trio => "trio",
             Width::FillTimes => "fill-times",
+            Width::Idle => "idle-events",
+            Width::Micro => "micro-moves",
         }
     }
     pub fn from_label(label: &str) -> Self {
@@ -260,6 +314,8 @@ impl M {
             "medium" => Width::Medium,
             "trio" => Width::Trio,
             "fill-times" => Width::FillTimes,
+            "idle-events" => Width::Idle,
+            "micro-moves" => Width::Micro,
             _ => Width::Full,
         })
     }
@@ -272,13 +328,98 @@ impl M {
     }
 
     fn market(&self, i: usize, t: i64, kind: DataKind) -> Event {
+        // `idle-events` also varies the RECEIPT time, which the statement does not mention: public trades
+        // arrive an hour after their exchange time (a slow / replayed feed), books one second "before" it
+        // (clock skew between venue and host). Everywhere else receipt time == exchange time.
+        let received = match (&kind, self.width) {
+            (DataKind::Trade(_), Width::Idle) => t + 3600,
+            (_, Width::Idle) => t - 1,
+            _ => t,
+        };
         EngineEvent::Market(MarketStreamEvent::Item(MarketEvent {
             time_exchange: t_plus(t),
-            time_received: t_plus(t),
+            time_received: t_plus(received),
             exchange: self.driven[i].1,
             instrument: self.driven[i].0,
             kind,
         }))
+    }
+}
+
+impl M {
+    /// The event of an idle symbol (no fill, no market data). Its timestamp is one second after the greatest
+    /// timestamp its instrument has seen; it is not a market event or fill, so it does not enter `max_t`.
+    fn idle_event(&self, s: &St, sym: &Sym) -> Event {
+        let i = sym.instrument();
+        let time = t_plus(s.mon[i].max_t.unwrap_or(0) + 1);
+        let (index, exchange_id, exchange) = self.driven[i];
+        match *sym {
+            Sym::OrderSnap { .. } => {
+                let order: Order<ExchangeIndex, InstrumentIndex, OrderState<AssetIndex, InstrumentIndex>> = Order {
+                    key: OrderKey { exchange, instrument: index, strategy: strategy_id(), cid: ClientOrderId::new(format!("c{i}")) },
+                    side: Side::Buy,
+                    price: dec!(90),
+                    quantity: dec!(1),
+                    kind: OrderKind::Limit,
+                    time_in_force: TimeInForce::GoodUntilCancelled { post_only: false },
+                    state: OrderState::active(Open { id: OrderId::new(format!("o{i}")), time_exchange: time, filled_quantity: dec!(0) }),
+                };
+                EngineEvent::Account(AccountStreamEvent::Item(AccountEvent { exchange, kind: AccountEventKind::OrderSnapshot(Snapshot(order)) }))
+            }
+            Sym::Balance { .. } => EngineEvent::Account(AccountStreamEvent::Item(AccountEvent {
+                exchange,
+                kind: AccountEventKind::BalanceSnapshot(Snapshot(AssetBalance {
+                    asset: self.quote[i],
+                    balance: Balance::new(dec!(1000), dec!(1000)),
+                    time_exchange: time,
+                })),
+            })),
+            Sym::AccountReconnecting { .. } => EngineEvent::Account(AccountStreamEvent::Reconnecting(exchange_id)),
+            Sym::MarketReconnecting { .. } => EngineEvent::Market(MarketStreamEvent::Reconnecting(exchange_id)),
+            Sym::Trading { on } => EngineEvent::TradingStateUpdate(if on { TradingState::Enabled } else { TradingState::Disabled }),
+            _ => unreachable!("not an idle symbol"),
+        }
+    }
+
+    /// Rule (f): an event that carries neither a fill nor market data leaves every estimate where it was.
+    fn step_idle(&self, s: &mut St, sym: &Sym, out: &mut Vec<Viol>) {
+        let kind = match sym {
+            Sym::OrderSnap { .. } => "order-snapshot",
+            Sym::Balance { .. } => "balance-snapshot",
+            Sym::AccountReconnecting { .. } => "account-stream-reconnecting",
+            Sym::MarketReconnecting { .. } => "market-stream-reconnecting",
+            _ => "trading-state-update",
+        };
+        let event = self.idle_event(s, sym);
+        let before: Vec<Option<Decimal>> = (0..self.driven.len()).map(|j| self.position(&s.eng, j).map(|p| p.pnl_unrealised)).collect();
+        let eng = &mut s.eng;
+        if catch_unwind(AssertUnwindSafe(|| {
+            eng.0.process(event.clone());
+        }))
+        .is_err()
+        {
+            out.push((format!("C15/panic/{kind}"), format!("Engine::process panicked on {event:?}")));
+            s.dead = true;
+            return;
+        }
+        for j in 0..self.driven.len() {
+            let Some(b) = before[j] else { continue };
+            // the position bookkeeping itself (a position vanishing here) is C02's business
+            let Some(p) = self.position(&s.eng, j) else { continue };
+            self.n.idle_event_checked.fetch_add(1, Ordering::Relaxed);
+            let got = p.pnl_unrealised;
+            if got != b && !accepts(p, got, &s.mon[j].allowed) {
+                let cause = if self.price(&s.eng, j).is_some_and(|x| close_to(p, got, x)) { "re-marked-at-market-price" } else { "changed" };
+                out.push((
+                    format!("C15/estimate-kept-until-newer-market-data/{kind}/{cause}"),
+                    format!(
+                        "{sym:?} ({kind}: neither a fill nor market data) changed pnl_unrealised of instrument {:?} from {b} to {got}; allowed sources were {:?}, the instrument's market price is {:?} (position {:?} {} @ {} max {} fees_enter {})",
+                        self.driven[j].0, s.mon[j].allowed, self.price(&s.eng, j), p.side, p.quantity_abs, p.price_entry_average, p.quantity_abs_max, p.fees_enter.fees
+                    ),
+                ));
+                s.mon[j].allowed = vec![Src::Observed(got)];
+            }
+        }
     }
 }
 
@@ -324,8 +465,41 @@ impl SeqModel for M {
             return vec![];
         }
         let mut v = Vec::new();
+        if self.width == Width::Idle {
+            v.push(Sym::Trading { on: true });
+            v.push(Sym::Trading { on: false });
+        }
         for i in 0..self.driven.len() as u8 {
             let first = s.mon[i as usize].max_t.is_none();
+            if self.width == Width::Idle {
+                // fills qty{1,2} @110 fee 0.3, trade @120 {newer, older}, L1 (mid 105) newer, and the four
+                // per-instrument / per-exchange events without fill or market data
+                for q in 0..2u8 {
+                    for buy in [true, false] {
+                        v.push(Sym::Fill { i, buy, q, p: 1, f: 1, t: T::Newer });
+                    }
+                }
+                v.push(Sym::Trade { i, t: T::Newer, p: 1 });
+                if !first {
+                    v.push(Sym::Trade { i, t: T::Older, p: 1 });
+                }
+                v.push(Sym::L1 { i, t: T::Newer, b: 1 });
+                v.extend([Sym::OrderSnap { i }, Sym::Balance { i }, Sym::AccountReconnecting { i }, Sym::MarketReconnecting { i }]);
+                continue;
+            }
+            if self.width == Width::Micro {
+                // fills qty{1,2} @100 fee 0.3, newer trades @ {100, 100.00000001, 120}, L1 (mid 100) newer
+                for q in 0..2u8 {
+                    for buy in [true, false] {
+                        v.push(Sym::Fill { i, buy, q, p: 0, f: 1, t: T::Newer });
+                    }
+                }
+                for p in [0u8, 2, 1] {
+                    v.push(Sym::Trade { i, t: T::Newer, p });
+                }
+                v.push(Sym::L1 { i, t: T::Newer, b: 0 });
+                continue;
+            }
             if self.width == Width::FillTimes {
                 // fills qty{1,2} @110 fee 0.3 x time{newer, equal, older}, trade @120 {newer, older}, L1 book 1 newer
                 let times: &[T] = if first { &[T::Newer] } else { &[T::Newer, T::Equal, T::Older] };
@@ -409,6 +583,9 @@ impl SeqModel for M {
     }
 
     fn step(&self, s: &mut St, sym: &Sym, hist: &[Sym], out: &mut Vec<Viol>) {
+        if sym.is_idle() {
+            return self.step_idle(s, sym, out);
+        }
         let i = sym.instrument();
         let n = hist.len();
         // the fill is stamped equal to / older than something the instrument has already seen
@@ -479,6 +656,9 @@ impl SeqModel for M {
                 let kind = DataKind::OrderBookL1(OrderBookL1 { last_update_time: t_plus(time), best_bid: None, best_ask: None });
                 s.mon[i].max_t = Some(max_t.map_or(time, |m| m.max(time)));
                 (self.market(i, time, kind), None, None, false, "empty-l1")
+            }
+            Sym::OrderSnap { .. } | Sym::Balance { .. } | Sym::AccountReconnecting { .. } | Sym::MarketReconnecting { .. } | Sym::Trading { .. } => {
+                unreachable!("idle symbols are handled by step_idle")
             }
         };
 
@@ -697,14 +877,17 @@ impl SeqModel for M {
 pub fn run(ctx: &Ctx) -> Outcome {
     // (alphabet width, max history length)
     let plan: Vec<(Width, usize)> = ctx.tier.pick(
-        vec![(Width::Full, 4), (Width::Narrow, 6), (Width::Trio, 4), (Width::FillTimes, 4)],
-        vec![(Width::Full, 4), (Width::Medium, 5), (Width::Narrow, 7), (Width::Trio, 5), (Width::FillTimes, 5)],
+        vec![(Width::Full, 4), (Width::Narrow, 6), (Width::Trio, 4), (Width::FillTimes, 4), (Width::Idle, 4), (Width::Micro, 5)],
+        vec![(Width::Full, 4), (Width::Medium, 5), (Width::Narrow, 7), (Width::Trio, 5), (Width::FillTimes, 5), (Width::Idle, 5), (Width::Micro, 6)],
     );
+    // development aid (never set by `check`): VCHECK_C15_ONLY=label,label restricts the run to those configurations
+    let only: Option<Vec<String>> = std::env::var("VCHECK_C15_ONLY").ok().map(|v| v.split(',').map(|x| x.trim().to_string()).collect());
+    let plan: Vec<(Width, usize)> = plan.into_iter().filter(|(w, _)| only.as_ref().is_none_or(|o| o.iter().any(|l| l == M::new(*w).label()))).collect();
     let mut per_cfg = Vec::new();
     let mut evaluations = 0u64;
     let mut sequences = 0u64;
     let mut distinct = 0usize;
-    let mut totals = [0u64; 7];
+    let mut totals = [0u64; 8];
     for (width, depth) in plan {
         let m = M::new(width);
         let st = seq::run(ctx, &m, m.label(), depth);
@@ -719,6 +902,7 @@ pub fn run(ctx: &Ctx) -> Outcome {
             m.n.refreshed_to_new_value.load(Ordering::Relaxed),
             m.n.open_fill_zero_where_estimate_nonzero.load(Ordering::Relaxed),
             m.n.exit_fee_basis_checked.load(Ordering::Relaxed),
+            m.n.idle_event_checked.load(Ordering::Relaxed),
         ];
         for (t, x) in totals.iter_mut().zip(c) {
             *t += x;
@@ -728,10 +912,10 @@ pub fn run(ctx: &Ctx) -> Outcome {
             "distinct_final_states": st.distinct_final,
             "checks": {"a_priced_new_market_event_with_open_position": c[0], "b_fill_leaving_position_open": c[1],
                        "c_event_without_new_price_with_open_position": c[2], "d_other_instrument_untouched": c[3],
-                       "e_exit_fee_basis_is_maximum_size": c[6]},
+                       "e_exit_fee_basis_is_maximum_size": c[6], "f_event_without_fill_or_market_data": c[7]},
         }));
     }
-    if totals[0] == 0 || totals[1] == 0 || totals[2] == 0 || totals[3] == 0 {
+    if only.is_none() && (totals[0] == 0 || totals[1] == 0 || totals[2] == 0 || totals[3] == 0 || totals[7] == 0) {
         eprintln!("MACHINERY: C15 exploration is vacuous: {totals:?}");
         std::process::exit(2);
     }
@@ -740,6 +924,8 @@ pub fn run(ctx: &Ctx) -> Outcome {
         json!({"label": "full", "seq": [Sym::L1{i:1,t:T::Newer,b:0}, Sym::Fill{i:1,buy:false,q:1,p:1,f:0,t:T::Newer}, Sym::Trade{i:1,t:T::Older,p:1}]}),
         json!({"label": "trio", "seq": [Sym::Fill{i:0,buy:true,q:0,p:0,f:1,t:T::Newer}, Sym::Trade{i:1,t:T::Newer,p:1}, Sym::L1{i:2,t:T::Newer,b:1}]}),
         json!({"label": "fill-times", "seq": [Sym::Fill{i:0,buy:true,q:1,p:1,f:1,t:T::Newer}, Sym::Trade{i:0,t:T::Newer,p:1}, Sym::Fill{i:0,buy:false,q:0,p:1,f:1,t:T::Older}]}),
+        json!({"label": "idle-events", "seq": [Sym::Trade{i:0,t:T::Newer,p:1}, Sym::Fill{i:0,buy:true,q:0,p:1,f:1,t:T::Newer}, Sym::OrderSnap{i:0}, Sym::AccountReconnecting{i:0}, Sym::L1{i:0,t:T::Newer,b:1}]}),
+        json!({"label": "micro-moves", "seq": [Sym::Fill{i:1,buy:false,q:1,p:0,f:1,t:T::Newer}, Sym::Trade{i:1,t:T::Newer,p:0}, Sym::Trade{i:1,t:T::Newer,p:2}]}),
     ];
     Outcome {
         level: "exploration",
@@ -748,12 +934,13 @@ pub fn run(ctx: &Ctx) -> Outcome {
             "sequences": sequences,
             "distinct_nontrivial": distinct,
             "exhaustive": true,
-            "rule": "all histories of length <= max_len through Engine::process over {fills, public trades, L1 updates (newer/equal/older timestamps), liquidation, empty L1} x 2 driven instruments (indices 1 and 2 on 2 exchanges; 'trio': all 3 instruments incl. index 0, two of them on one exchange, two of them the same market on different exchanges; 'fill-times': fills stamped newer / equal / older than the greatest timestamp seen); after every event pnl_unrealised of every open position is compared with the documented estimate at the instrument's current price / the fill price (rules a-e)",
+            "rule": "all histories of length <= max_len through Engine::process over {fills, public trades, L1 updates (newer/equal/older timestamps), liquidation, empty L1} x 2 driven instruments (indices 1 and 2 on 2 exchanges; 'trio': all 3 instruments incl. index 0, two of them on one exchange, two of them the same market on different exchanges; 'fill-times': fills stamped newer / equal / older than the greatest timestamp seen; 'idle-events': plus order snapshots, balance snapshots, account- and market-stream Reconnecting events and trading-state updates, market data received an hour after / a second before its exchange time; 'micro-moves': trades that move the price by 1e-8); after every event pnl_unrealised of every open position is compared with the documented estimate at the instrument's current price / the fill price (rules a-e), and an event that carries neither a fill nor market data must leave every estimate where it was (rule f)",
             "checks_a_priced_new_market_event": totals[0],
             "checks_b_fill": totals[1],
             "checks_c_event_without_new_price": totals[2],
             "checks_d_other_instrument": totals[3],
             "checks_e_exit_fee_basis": totals[6],
+            "checks_f_event_without_fill_or_market_data": totals[7],
             "market_events_that_changed_the_estimate": totals[4],
             "noted_open_fill_estimate_is_zero_not_minus_entry_fee": totals[5],
             "per_configuration": per_cfg,
@@ -761,6 +948,8 @@ pub fn run(ctx: &Ctx) -> Outcome {
         }),
         assumptions: vec![
             "L1 events carry last_update_time == time_exchange, as every connector constructs them".into(),
+            "events that carry neither a fill nor market data (order snapshot, balance snapshot, stream Reconnecting, trading-state update) must leave pnl_unrealised of every open position unchanged or at a value the monitor already allows ('until newer market data arrives'); they never cause a position to be opened or closed in these runs".into(),
+            "the receipt time of market data (time_received) is not part of the statement: in 'idle-events' it lies an hour after (trades) or a second before (books) the exchange time and the same rules apply".into(),
             "fills: price > 0, quantity > 0, fee >= 0 in the quote asset, fresh trade ids; market prices are finite positive numbers".into(),
             "a fill stamped equal to / older than the greatest timestamp its instrument has seen must leave the estimate at the fill price or at the instrument's current price (newer market data may already have arrived); for a fill that is the newest event only the fill price is accepted".into(),
             "the instrument's current price is what the real InstrumentDataState::price() reports after the event (DefaultInstrumentMarketData: L1 volume-weighted mid, else last trade)".into(),
